@@ -86,7 +86,7 @@ type runState struct {
 	c      Case
 	vs     []vk.Violation
 	seen   map[string]bool
-	fatal  bool // a violation other than the two suspended clauses was recorded
+	fatal  bool // a violation other than a suspended clause was recorded
 	recs   []*sdklog.Record
 	models []*model
 	vf     valueFacts
@@ -94,8 +94,8 @@ type runState struct {
 }
 
 // suspended are the clauses behind a known finding: reported once per case,
-// the case goes on.
-var suspended = map[string]bool{"count_limit_zero_not_enforced": true, "length_limit_zero_keeps_invalid_byte": true}
+// the case goes on (so that the rest of it is still checked).
+var suspended = map[string]bool{"count_limit_zero_not_enforced": true}
 
 func (s *runState) bad(kind, format string, a ...any) {
 	msg := fmt.Sprintf(format, a...)
@@ -337,11 +337,6 @@ var known = map[string]func(Case, vk.Violation) bool{
 	"log_count_limit_zero": func(c Case, v vk.Violation) bool {
 		return c.CountLimit == 0 && v.Kind == "count_limit_zero_not_enforced"
 	},
-	// truncate(0, s) with s a single invalid byte returns s (Builder.Grow(0)
-	// leaves Cap() == 0, which is taken for "no invalid input").
-	"log_length_limit_zero_single_invalid_byte": func(c Case, v vk.Violation) bool {
-		return c.LenLimit == 0 && v.Kind == "length_limit_zero_keeps_invalid_byte"
-	},
 }
 
 func TestRecordModel(t *testing.T) {
@@ -349,7 +344,7 @@ func TestRecordModel(t *testing.T) {
 		Property: "C17", Check: "record_model",
 		Rule: "count limit in {-1,0,1,2,3,5,6,7,128} x length limit in {-1,0,1,3,8}; 1..12 SetAttributes/AddAttributes/Clone steps (0..10 kvs each, key alphabets of 2/7/12 keys + empty/invalid keys, every log.Value kind, nesting depth <= 3, hostile/invalid strings) on a logtest.RecordFactory record and up to two clones, compared after every step with an ordered-map-with-capacity model per record; " +
 			"non-trivial = a later call overwrites a key that is already held, or the count limit is reached in the middle of a call, or a nested string is truncated",
-		Quick: 60000, Thorough: 900000,
+		Quick: 60000, Thorough: 600000,
 		Gen: func(t *rapidT) Case { return genCase(t, "direct", false) }, Run: run,
 		Known: known,
 	})
@@ -360,7 +355,7 @@ func TestEmitModel(t *testing.T) {
 		Property: "C17", Check: "emit_model",
 		Rule: "same limits; an API log.Record carrying 0..12 attributes is emitted through a LoggerProvider configured with the limits (the SDK adds them one by one); the first processor checks the record, applies 0..8 further Set/Add/Clone steps inside OnEmit (checked after every step); a SimpleProcessor + recording exporter registered after it must see the same final record; " +
 			"non-trivial = as for record_model",
-		Quick: 30000, Thorough: 450000,
+		Quick: 30000, Thorough: 300000,
 		Gen: func(t *rapidT) Case { return genCase(t, "emit", false) }, Run: run,
 		Known: known,
 	})
@@ -371,7 +366,7 @@ func TestStringLimits(t *testing.T) {
 		Property: "C17", Check: "string_limits",
 		Rule: "length limit in {0,1,3,8} (-1 rarely), count limit mostly unlimited/128; 1..5 steps whose values are strings or slices/maps of strings near the limit (repeated multi-byte runes, literal U+FFFD, invalid bytes at every position, exactly limit / limit+1 characters), first step often a 7-key Set so that later calls overwrite inline and overflow keys; " +
 			"non-trivial = as for record_model",
-		Quick: 40000, Thorough: 600000,
+		Quick: 40000, Thorough: 400000,
 		Gen: func(t *rapidT) Case { return genCase(t, "direct", true) }, Run: run,
 		Known: known,
 	})
